@@ -347,6 +347,17 @@ def r3_text_equals_program(chk: Check):
     chk.require("return specs.cpu(**children[0])" in t, "launcherfinder.parser:Visitor.visit_cpu", "cpu(...) must build specs.cpu with the parsed keys", chk.loc(vis.module, vis.methods["visit_cpu"].node))
     t = src(vis.methods["visit_duration"].node)
     chk.require("specs.duration(" in t, "launcherfinder.parser:Visitor.visit_duration", "duration=... must build specs.duration", chk.loc(vis.module, vis.methods["visit_duration"].node))
+    # ... and the unit is interpreted in one place only (specs.duration, as for the programmatic request): the visitor hands the matched text
+    # over and has no unit table of its own (the grammar accepts `h`, `hours`, `d`, `days`)
+    vd = vis.methods["visit_duration"].node
+    own_units = [x for x in body_walk(vd) if isinstance(x, (ast.Compare, ast.IfExp, ast.If, ast.Match))
+                 or (isinstance(x, ast.BinOp) and isinstance(x.op, (ast.Mult, ast.Pow)))
+                 or (isinstance(x, ast.Call) and dotted(x.func) in ("int", "float"))]
+    dcalls = [c for c in fn_calls(vd) if src(c.func) == "specs.duration"]
+    ok = not own_units and len(dcalls) == 1 and any(isinstance(y, ast.Name) and y.id == "children" for y in ast.walk(dcalls[0]))
+    chk.require(ok, "launcherfinder.parser:Visitor.visit_duration:unit interpreted by specs.duration", "the textual duration is converted by the visitor itself "
+                f"({[src(x)[:40] for x in own_units][:3]}) instead of handing the matched text to specs.duration: text and programmatic request can disagree on a unit spelling the grammar accepts",
+                chk.loc(vis.module, vd))
     g = vis.methods["visit_grammar"]
     rets = [x for x in body_walk(g.node) if isinstance(x, ast.Return)]
     ok = len(rets) == 1 and src(rets[0].value) in ("[child for child in children]", "list(children)", "children")
